@@ -227,6 +227,10 @@ def run_check(spec, tier, base_seed, budget_s=None, workers=None, out=sys.stdout
             if d != r["digest"]:
                 harness_errors.append((r["family"], r["seed"], "NONDETERMINISM: digest %s in pool, %s in a fresh interpreter with another PYTHONHASHSEED" % (r["digest"][:16], str(d)[:16])))
 
+    # vacuity guard: a batch in which the code under test mostly did not run decides nothing
+    prog = [min(1.0, r["progress"]) for r in results if "progress" in r and not r["violations_mine"]]
+    if prog and not new_violations and sum(prog) / len(prog) < 0.5:
+        harness_errors.append(("batch", -1, "VACUOUS: on average only %.0f %% of the planned steps ran (the code under test raises or stops early); nothing is decided" % (100 * sum(prog) / len(prog))))
     if harness_errors:
         for fam, seed, msg in harness_errors[:5]:
             print("HARNESS-ERROR family=%s seed=%s: %s" % (fam, seed, msg), file=out, flush=True)
@@ -393,7 +397,8 @@ def write_evidence(spec, tier, base_seed, results, wall, n_viol, det_pairs, know
     }
     # probes that count *bad or undecidable* events are expected to stay at zero
     expect_zero = {"dt_nonpositive_seen", "long_way_round_commanded", "check_nan_raised", "state_poisoned_out_of_domain", "plant_failed",
-                   "not_judged_nonfinite", "setpoint_quat_not_unit", "near_pi_not_judged", "ground_contact"}
+                   "not_judged_nonfinite", "setpoint_quat_not_unit", "near_pi_not_judged", "ground_contact", "predict_changed_bias",
+                   "corrected_factor_not_lower_triangular", "exception_in_node", "integrator_memory_changed_by_caller", "setpoint_memory_changed_by_caller"}
     zero = sorted(k for k, v in probes.items() if v == 0 and k not in expect_zero)
     if zero:
         ev["coverage"]["probes_stuck_at_zero"] = zero
